@@ -322,16 +322,27 @@ def run(ck, facts):
 
     # ---------------- R6 inheritance
     fi = core.fn("hir::attrs::Attrs::for_inheritance")
+    import exprval
     okdis = False
+    ictx = next((a for p_, a in adts.items() if p_.endswith("::AttrInheritContext")), None)
+    ctxs = [v["name"] for v in ictx["variants"]] if ictx else []
+    dis_init = None
     for n in C.walk(C.fn_body(fi)):
-        if n.get("k") == "letst" and n["pat"].get("n") == "disable":
-            i0 = C.strip(n["init"])
-            if i0.get("k") == "if":
-                c = C.strip(i0["c"])
-                names = [x.get("ctor", "").split("::")[-1] for x in C.walk(c) if x.get("k") == "def" and x.get("ctor")]
-                okdis = c.get("k") == "bin" and c.get("op") == "Eq" and names == ["Variant"] and lit_bool(i0["t"]) is False and C.strip(C.strip(i0["e"])).get("n") == "disable" if C.strip(i0["e"]).get("k") == "field" else False
-                if not okdis and C.strip(i0["e"]).get("k") == "block":
-                    okdis = c.get("k") == "bin" and names == ["Variant"] and lit_bool(i0["t"]) is False and any(x.get("k") == "field" and x.get("n") == "disable" for x in C.walk(i0["e"]))
+        if n.get("k") == "letst" and isinstance(n.get("pat"), dict) and n["pat"].get("n") == "disable" and n.get("init"):
+            dis_init = n["init"]
+    if dis_init is None:
+        # the value may be written directly into the struct literal
+        for n in C.walk(C.fn_body(fi)):
+            if n.get("k") == "struct" and (n.get("adt") or "").endswith("hir::attrs::Attrs"):
+                for fl in n.get("fields", []):
+                    if fl["n"] == "disable":
+                        dis_init = fl["e"]
+    if dis_init is not None and ctxs:
+        try:
+            okdis = all(exprval.bev(dis_init, {"context": c, "disable": d}) == (d and c != "Variant") for c in ctxs for d in (True, False)) and "Variant" in ctxs
+        except exprval.Unknown as e:
+            okdis = False
+            ck.note("for_inheritance/disable not evaluable: %s" % e)
     ck.expect(okdis, "R6", "for_inheritance/disable", "false for variants, inherited otherwise", "`disable` inheritance changed (must inherit everywhere except to variants)", C.loc(fi))
     # type lowerers use ty_parent_attrs for the type, method_parent_attrs for its methods
     for fname in ("lower_enum", "lower_opaque", "lower_struct", "lower_out_struct", "lower_trait"):
@@ -350,10 +361,11 @@ def run(ck, facts):
         ck.expect(ok, "R6", fname + "/type-parent", str(tops[:1]), "%s builds the type's attributes from `%s` instead of the type-parent attributes: module-level disable/rename conditions no longer reach this kind of type" % (fname, tops[:1]), C.loc(f))
         if fname != "lower_trait":
             mp = []
-            for n in C.walk(C.fn_body(f)):
-                if n.get("k") == "mcall" and n.get("m") == "lower_all_methods" and len(n["a"]) >= 3:
-                    par = C.strip(n["a"][2])
-                    mp.append(par.get("n") if par.get("k") == "field" else par.get("k"))
+            for e in C.args_reaching(core, f, "lower_all_methods", 2):
+                par = C.strip(e)
+                while par.get("k") in ("addr", "deref", "paren"):
+                    par = C.strip(list(C.children(par))[0])
+                mp.append(par.get("n") if par.get("k") in ("field", "local") else par.get("k"))
             ck.expect(mp == ["method_parent_attrs"], "R6", fname + "/method-parent", str(mp), "%s passes %s as the methods' parent attributes" % (fname, mp), C.loc(f))
 
     # ---------------- R7 sibling independence (no attribute state carried from one item to the next)
